@@ -473,7 +473,7 @@ func Solve(query string, getvals []string, timeoutS int, all bool, dir, name str
 }
 
 func sanitize(s string) string {
-	r := strings.NewReplacer("/", "_", ":", "_", "#", "_", "@", "_", "$", "_", "(", "", ")", "", "*", "", " ", "_", "[", "_", "]", "_", "<", "", ">", "")
+	r := strings.NewReplacer("/", "_", ":", "_", "#", "_", "@", "_", "$", "_", "(", "", ")", "", "*", "", " ", "_", "[", "_", "]", "_", "<", "", ">", "", "=", "-")
 	return r.Replace(s)
 }
 
